@@ -32,10 +32,14 @@ class Tbl(Stub):
         self.meta = MetaRec(ops)
         self.columns = {}
 
+    def __setitem__(self, name, col):
+        self.ops.append(("cols", (name,), [col], {"direct": True}))
+        self.columns[name] = col
+
     def add_columns(self, columns, names=None, *a, **k):
         columns = list(columns)
         names = list(names)
-        self.ops.append(("cols", tuple(names), columns))
+        self.ops.append(("cols", tuple(names), columns, dict(k, extra_args=list(a)) if (a or k) else {}))
         for n, c in zip(names, columns):
             self.columns[n] = c
 
@@ -166,7 +170,9 @@ class Model:
             if self.mode == "Target" and store is not None:
                 col = "tmcintopt" if method == "Optical" else "tmcintrad"
                 interp.call(store, [[col], [fresh(kept, col, log, "mcint")]], {})
-            return tuple(S(sp.Symbol("%s_%s" % (n, method), real=True)) for n in ("mcint", "mcintgeo", "passEV", "mcunc"))
+            out = tuple(S(sp.Symbol("%s_%s" % (n, method), real=True)) for n in ("mcint", "mcintgeo", "passEV", "mcunc"))
+            sym.MAYBE_NONFINITE.add(out[3].e)  # the statistical uncertainty is NaN for a single surviving event
+            return out
 
         ov[C.RegionGeom.mcintegral] = mcint
         ov[C.RegionGeomToO.mcintegral] = mcint
